@@ -85,10 +85,12 @@ def scenarios(tier):
                 ["top", "d/a", "e/b", "c"], ["top"])
     L.append((SC.scn("noisy-two-names-of-one-shared-target-j2", ssw, ["redo --no-color -j2 top"], visible=VIS, log_mode=True,
                      post_cmds=post), 0 if q else 1))
+    # every script writes a line that parses as a record naming a file redo knows nothing about: in-band signalling, so the
+    # line itself is shown as a header -- but the viewer must survive it and go on showing everything else
+    L.append((SC.scn("noisy-record-like-line-j1", noisy_world(2), ["redo --no-color top"], visible=VIS, log_mode=True,
+                     post_cmds=post), 0 if q else 1))
     if not q:
         L.append((SC.scn("noisy-ifchange-j1", w, ["redo-ifchange top"], visible=VIS, log_mode=True, post_cmds=post), 2))
-        L.append((SC.scn("noisy-record-like-line-j1", noisy_world(2), ["redo --no-color top"], visible=VIS, log_mode=True,
-                         post_cmds=post), 1))
     return L
 
 
